@@ -1,8 +1,8 @@
 (* C19 -- decoders survive arbitrary input.
    Only statements, [exact], and Print Assumptions live here. *)
 From Coq Require Import List NArith Arith Bool.
-From DS Require Import Gen.Constants Base.Bytes Base.LE64 Model.Format Model.Index Model.Protocol Model.Archive Model.ProtocolServer
-     Proofs.FormatProofs Proofs.DecoderProofs Proofs.ProtocolServerProofs.
+From DS Require Import Gen.Constants Base.Bytes Base.LE64 Model.Format Model.Index Model.Protocol Model.Archive Model.ArchiveLeaf Model.ProtocolServer
+     Proofs.FormatProofs Proofs.DecoderProofs Proofs.ProtocolServerProofs Proofs.ArchiveLeafProofs.
 Import ListNotations.
 Local Open Scope N_scope.
 
@@ -35,6 +35,27 @@ Theorem C19_decoders_alloc_bound : forall b : bytes,
   (forall st, decode_archive_next_alloc st b <= lenN b + 65536) /\ decode_archive_alloc b <= lenN b + 65536.
 Proof. exact decoders_alloc_bound. Qed.
 Print Assumptions C19_decoders_alloc_bound.
+
+(* ArchiveDecoder.Next as it is now, with the leaf-root rule on top of [archive_next] (Model/ArchiveLeaf.v:
+   a root entry that is a file, symlink or device is the only entry; any later node is refused): for
+   every byte list and every decoder state, a value or an error, bounded allocation; the states are
+   closed under Next; and after a leaf root nothing is returned any more. *)
+Theorem C19_archive_full_total : forall b : bytes,
+  (forall ds, wf_astate (d_core ds) ->
+     survives (decode_archive_next_full ds b) /\ decode_archive_next_full_alloc ds b <= lenN b + 65536) /\
+  survives (decode_archive_full b) /\ decode_archive_full_alloc b <= lenN b + 65536.
+Proof. exact archive_full_total. Qed.
+Print Assumptions C19_archive_full_total.
+
+Theorem C19_archive_full_state_preserved : forall ds b nd ds' rest,
+  wf_astate (d_core ds) -> decode_archive_next_full ds b = Ok ((nd, ds'), rest) -> wf_astate (d_core ds').
+Proof. exact archive_full_state_preserved. Qed.
+Print Assumptions C19_archive_full_state_preserved.
+
+Theorem C19_leaf_root_is_last : forall ds b r rest,
+  d_leaf_root ds = true -> decode_archive_next_full ds b = Ok (r, rest) -> fst r = None.
+Proof. exact leaf_root_is_last. Qed.
+Print Assumptions C19_leaf_root_is_last.
 
 (* The protocol endpoints.  ProtocolServer.Serve on EVERY byte stream a client can send and for every
    chunk store (a function of the requested id): handshake, wanted-service check, then the dispatch on
@@ -126,4 +147,22 @@ Example C19_server_guard32_refuted :
   decode_serve (fun _ => SMissing)
     (ex_hello ++ write_message (CaProtocolRequest, repeat 7 40) ++ write_message (CaProtocolGoodbye, [])) =
     Ok ([RMissing (repeat 7 32)], []).
+Proof. vm_compute. repeat split; reflexivity. Qed.
+
+(* the leaf-root rule: a root FILE alone, or followed by a goodbye / the end, decodes to that one node;
+   followed by a named entry it is an error; a root DIRECTORY may be followed by named entries *)
+Definition ex_root_file : list elem :=
+  [ Entry (mkHeader 64 CaFormatEntry) 0 33188 0 0 0 7; Payload (mkHeader 17 CaFormatPayload) [1] ].
+Definition ex_named_file : list elem :=
+  [ Filename (mkHeader 18 CaFormatFilename) [102]; Entry (mkHeader 64 CaFormatEntry) 0 33188 0 0 0 7;
+    Payload (mkHeader 17 CaFormatPayload) [2] ].
+Definition ex_goodbye : elem := Goodbye (mkHeader 40 CaFormatGoodbye) [(0, 0, CaFormatGoodbyeTailMarker)].
+Example C19_example_leaf_root :
+  decode_archive_full (encode_elems ex_root_file) = Ok ([NFile [] (mkMeta 0 0 33188 7) [] 1 [1]], []) /\
+  decode_archive_full (encode_elems (ex_root_file ++ [ex_goodbye])) = Ok ([NFile [] (mkMeta 0 0 33188 7) [] 1 [1]], []) /\
+  decode_archive_full (encode_elems (ex_root_file ++ ex_named_file)) = Err InvalidFormat /\
+  decode_archive (encode_elems (ex_root_file ++ ex_named_file)) =
+    Ok ([NFile [] (mkMeta 0 0 33188 7) [] 1 [1]; NFile [[102]] (mkMeta 0 0 33188 7) [] 1 [2]], []) /\
+  decode_archive_full (encode_elems (Entry (mkHeader 64 CaFormatEntry) 0 16877 0 0 0 5 :: ex_named_file ++ [ex_goodbye])) =
+    Ok ([NDirectory [] (mkMeta 0 0 16877 5) []; NFile [[102]] (mkMeta 0 0 33188 7) [] 1 [2]], []).
 Proof. vm_compute. repeat split; reflexivity. Qed.
